@@ -2855,6 +2855,12 @@ impl<T: Storage> Raft<T> {
         let prev_timeout = self.randomized_election_timeout;
         let timeout =
             rand::thread_rng().gen_range(self.min_election_timeout..self.max_election_timeout);
+        #[cfg(tikv_raft_rs_verif)]
+        let timeout = verif::election_timeout_hook(
+            timeout,
+            self.min_election_timeout,
+            self.max_election_timeout,
+        );
         debug!(
             self.logger,
             "reset election timeout {prev_timeout} -> {timeout} at {election_elapsed}",
@@ -2961,6 +2967,74 @@ impl<T: Storage> Raft<T> {
     pub fn adjust_max_inflight_msgs(&mut self, target: u64, cap: usize) {
         if let Some(pr) = self.mut_prs().get_mut(target) {
             pr.ins.set_cap(cap);
+        }
+    }
+}
+
+/// Verification hooks (compiled only with `--cfg tikv_raft_rs_verif`): read-only
+/// views of private state and a recorder/override for the randomized election
+/// timeout so that executions can be replayed. No library behaviour depends on
+/// this module unless a seed is installed by the verification harness.
+#[cfg(tikv_raft_rs_verif)]
+#[doc(hidden)]
+pub mod verif {
+    use super::{RaftCore, Storage};
+    use std::cell::{Cell, RefCell};
+
+    thread_local! {
+        static DRAWS: RefCell<Vec<usize>> = const { RefCell::new(Vec::new()) };
+        static SEED: Cell<Option<u64>> = const { Cell::new(None) };
+    }
+
+    /// Installs (or removes) a seed from which election timeouts are derived
+    /// instead of `thread_rng`, making runs reproducible.
+    pub fn set_timeout_seed(seed: Option<u64>) {
+        SEED.with(|s| s.set(seed));
+    }
+
+    /// Returns and clears the election timeouts drawn on this thread since the last call.
+    pub fn take_draws() -> Vec<usize> {
+        DRAWS.with(|d| std::mem::take(&mut *d.borrow_mut()))
+    }
+
+    pub(super) fn election_timeout_hook(drawn: usize, min: usize, max: usize) -> usize {
+        let v = SEED.with(|s| match s.get() {
+            Some(mut x) => {
+                x ^= x << 13;
+                x ^= x >> 7;
+                x ^= x << 17;
+                s.set(Some(x));
+                min + (x % ((max - min) as u64)) as usize
+            }
+            None => drawn,
+        });
+        DRAWS.with(|d| d.borrow_mut().push(v));
+        v
+    }
+
+    impl<T: Storage> RaftCore<T> {
+        /// Private fields, in declaration order: promotable, heartbeat_elapsed,
+        /// skip_bcast_commit, batch_append, disable_proposal_forwarding,
+        /// heartbeat_timeout, election_timeout, randomized_election_timeout,
+        /// min_election_timeout, max_election_timeout, max_uncommitted_size,
+        /// uncommitted_size, last_log_tail_index, max_committed_size_per_ready.
+        pub fn verif_private(&self) -> [u64; 14] {
+            [
+                self.promotable as u64,
+                self.heartbeat_elapsed as u64,
+                self.skip_bcast_commit as u64,
+                self.batch_append as u64,
+                self.disable_proposal_forwarding as u64,
+                self.heartbeat_timeout as u64,
+                self.election_timeout as u64,
+                self.randomized_election_timeout as u64,
+                self.min_election_timeout as u64,
+                self.max_election_timeout as u64,
+                self.uncommitted_state.max_uncommitted_size as u64,
+                self.uncommitted_state.uncommitted_size as u64,
+                self.uncommitted_state.last_log_tail_index,
+                self.max_committed_size_per_ready,
+            ]
         }
     }
 }
